@@ -915,3 +915,7 @@ def verify_pool_async(E, prop="C10"):
                      z3.ForAll([j], z3.Implies(z3.And(0 <= j, j < un), ua[j] != obj)), func=q, meta={"exit": o.kind})
             lock_released(E, prop, q, s, o.kind)
     E.case_suffix = ""
+
+
+from pyvc.sym import guard_units as _guard_units
+_guard_units(globals())
